@@ -455,3 +455,224 @@ Theorem C17_tie_requests : forall (w M : Z) (lhs rhs : list Z) (b : buffer) (n :
      b3 <- push b2 0 ;; from_buffer w M (setws b3 (tow w (len (bws b3)) (val w lhs * 2 ^ n)))).
 Proof. intros. split; [apply tie_mul_large | split; [apply tie_shl_large | apply tie_shl_large_ref]]. Qed.
 Print Assumptions C17_tie_requests.
+
+(** ================= round 4: the machine of Int/StorageOps3.v - sqrt / sqrt_rem, the modular rings (a Reduced value owns a
+    Box<[Word]>), IBig & | ^ ! >> << with negative operands, the parsers with their error exits, to_chunks / from_chunks,
+    the documented panics after a buffer was taken.  Capacities / lengths / scratch arguments are the REGENERATED ones of
+    coq/gen/StorageGen4.v.  [box_blks bx]: the block a Box<[Word]> owns (exactly len words, none when empty);
+    [CdivInv M c]: a large ConstDivisor holds a modulus of 3 .. M words; [econs c e]: an element of a small ring has no box;
+    [PQ] / [OptQ]: a parser ends with an owned buffer / value, or - after an invalid digit - with nothing left. *)
+From Dashu Require Import Int.StorageOps3 Int.StorageOps3Proofs Int.StorageOps3Bits Int.StorageOps3Sqrt Int.StorageOps3History
+  Int.StorageOps3Pow Int.StorageOps3Examples Int.ScratchOps3 Int.DivMemModel.
+From DashuGen Require Import StorageGen4 DivDispatch.
+
+(** <Box<[Word]> as Clone>::clone_from: equal lengths copy in place, otherwise the new box is built and the old one freed with
+    its own size; the result owns exactly one block of the source's length *)
+Theorem C17_box_clone_from : forall (self src : box) (F : list (Z * Z)) (m : mem) (Q : box -> mem -> Prop),
+  Own (box_blks self ++ F) m -> (forall nb m', Own (box_blks nb ++ F) m' -> snd nb = snd src -> Q nb m') ->
+  safe (box_clone_from self src) m Q.
+Proof. exact wp_box_clone_from. Qed.
+Print Assumptions C17_box_clone_from.
+
+(** ConstDivisor::new: the buffer of a large modulus becomes the boxed divisor (Buffer::into_boxed_slice); zero panics with
+    nothing owned *)
+Theorem C17_ring_new : forall (w M : Z) (x : targ) (F : list (Z * Z)) (m : mem) (Q : option cdiv -> mem -> Prop),
+  Own (tblks x ++ F) m -> TargInv M x -> is_ref x = false ->
+  (forall oc m', match oc with Some c => Own (cdiv_blks c ++ F) m' /\ CdivInv M c | None => Own F m' end -> Q oc m') ->
+  safe (ring_new w x) m Q.
+Proof. exact wp_ring_new. Qed.
+Print Assumptions C17_ring_new.
+
+(** ReducedLarge::from_ubig (rem_repr / rem_large, ensure_capacity_exact(modulus_len), push_zeros(modulus_len - len),
+    into_boxed_slice): no guard fails - in particular `modulus_len - buffer.len()` does not underflow and the zeros fit - and the
+    element owns one box *)
+Theorem C17_reduce : forall w M : Z, 8 <= M -> forall (c : cdiv) (x : targ) (res : Z) (F : list (Z * Z)) (m : mem) (Q : relem -> mem -> Prop),
+  Own (tblks x ++ F) m -> CdivInv M c -> TargInv M x -> is_ref x = false ->
+  (forall e m', Own (elem_blks e ++ F) m' -> econs c e -> Q e m') -> safe (reduce w M c x res) m Q.
+Proof. exact wp_reduce. Qed.
+Print Assumptions C17_reduce.
+
+(** Reduced::clone_from between elements of ANY two rings *)
+Theorem C17_elem_clone_from : forall (c : cdiv) (self src : relem) (F : list (Z * Z)) (m : mem) (Q : relem -> mem -> Prop),
+  Own (elem_blks self ++ F) m -> econs c src ->
+  (forall e' m', Own (elem_blks e' ++ F) m' -> econs c e' -> Q e' m') -> safe (elem_clone_from self src) m Q.
+Proof. exact wp_elem_clone_from. Qed.
+Print Assumptions C17_elem_clone_from.
+
+Theorem C17_rem_const : forall w M : Z, 8 <= M -> forall (c : cdiv) (x : targ) (F : list (Z * Z)) (m : mem) (Q : repr -> mem -> Prop),
+  Own (tblks x ++ F) m -> CdivInv M c -> TargInv M x -> is_ref x = false -> RQ M F Q -> safe (rem_const w M c x) m Q.
+Proof. exact wp_rem_const. Qed.
+Print Assumptions C17_rem_const.
+
+Theorem C17_div_const : forall w M : Z, 8 <= M -> forall (c : cdiv) (x : targ) (F : list (Z * Z)) (m : mem) (Q : repr -> mem -> Prop),
+  Own (tblks x ++ F) m -> CdivInv M c -> TargInv M x -> is_ref x = false -> RQ M F Q -> safe (div_const w M c x) m Q.
+Proof. exact wp_div_const. Qed.
+Print Assumptions C17_div_const.
+
+(** one ring step (ring, elements and all temporaries live and die inside it): value or the documented panic of
+    ConstDivisor::new(0) - in both cases only the result is left beside the frame *)
+Theorem C17_ring_step : forall w M : Z, 8 <= M ->
+  forall (k : rkind) (sx : sign) (x : targ) (sy : sign) (y md : targ) (ex : Z) (F : list (Z * Z)) (m : mem) (Q : outcome -> mem -> Prop),
+  Own (tblks x ++ tblks y ++ tblks md ++ F) m -> TargInv M x -> TargInv M y -> TargInv M md ->
+  is_ref x = false -> is_ref y = false -> is_ref md = false -> OQ M F Q ->
+  safe (ring_step w M k sx x sy y md ex) m Q.
+Proof. exact wp_ring_step. Qed.
+Print Assumptions C17_ring_step.
+
+(** IBig & | ^ for every combination of signs and every ownership of the operands (sign tables of bits.rs) *)
+Theorem C17_signed_bitops : forall w M : Z, 8 <= M ->
+  forall (f : sbit) (s0 : sign) (a : targ) (s1 : sign) (b : targ) (F : list (Z * Z)) (m : mem) (Q : repr -> mem -> Prop),
+  Own (tblks a ++ tblks b ++ F) m -> TargInv M a -> TargInv M b -> RQ M F Q -> safe (sbit_top w M f s0 a s1 b) m Q.
+Proof. exact wp_sbit_top. Qed.
+Print Assumptions C17_signed_bitops.
+
+Theorem C17_and_not : forall w M : Z, 8 <= M -> forall (a b : targ) (F : list (Z * Z)) (m : mem) (Q : repr -> mem -> Prop),
+  Own (tblks a ++ tblks b ++ F) m -> TargInv M a -> TargInv M b -> RQ M F Q -> safe (and_not w M a b) m Q.
+Proof. exact wp_and_not. Qed.
+Print Assumptions C17_and_not.
+
+Theorem C17_not : forall w M : Z, 8 <= M -> forall (s : sign) (a : targ) (F : list (Z * Z)) (m : mem) (Q : repr -> mem -> Prop),
+  Own (tblks a ++ F) m -> TargInv M a -> RQ M F Q -> safe (not_top w M s a) m Q.
+Proof. exact wp_not_top. Qed.
+Print Assumptions C17_not.
+
+Theorem C17_ishl : forall w M : Z, 0 < w -> 8 <= M -> forall (s : sign) (a : targ) (n : Z) (F : list (Z * Z)) (m : mem) (Q : repr -> mem -> Prop),
+  Own (tblks a ++ F) m -> TargInv M a -> 0 <= n -> RQ M F Q -> safe (ishl_top w M s a n) m Q.
+Proof. exact wp_ishl_top. Qed.
+Print Assumptions C17_ishl.
+
+(** IBig >> n of a negative value: shift, negation, signed subtraction of the rounding bit *)
+Theorem C17_ishr : forall w M : Z, 0 < w -> 8 <= M -> forall (s : sign) (a : targ) (n : Z) (F : list (Z * Z)) (m : mem) (Q : outcome -> mem -> Prop),
+  Own (tblks a ++ F) m -> TargInv M a -> 0 <= n -> OQ M F Q -> safe (ishr_top w M s a n) m Q.
+Proof. exact wp_ishr_top. Qed.
+Print Assumptions C17_ishr.
+
+(** the loop of power_two::parse_large never pushes beyond Buffer::allocate((src.len() * log_radix - 1) / WORD_BITS + 1), for every
+    text (digits, separators, invalid bytes), and an invalid digit leaves nothing behind *)
+Theorem C17_parse_pow2_loop : forall w M : Z, 0 < w -> 8 <= M ->
+  forall (lr N : Z) (items : list pitem) (bits word : Z) (b : buffer) (F : list (Z * Z)) (m : mem) (Q : option buffer -> mem -> Prop),
+  0 < lr <= w -> 0 <= bits < w -> Own (bblk b :: F) m -> BufOK M b ->
+  len (bws b) * w + bits + len items * lr <= N * lr -> (N * lr - 1) / w + 1 <= bcap b -> PQ M F Q ->
+  safe (parse2_loop w lr items bits word b) m Q.
+Proof. exact wp_parse2_loop. Qed.
+Print Assumptions C17_parse_pow2_loop.
+
+Theorem C17_parse_pow2 : forall w M : Z, 0 < w -> 8 <= M ->
+  forall (lr : Z) (items : list pitem) (F : list (Z * Z)) (m : mem) (Q : option repr -> mem -> Prop),
+  Own F m -> 0 < lr <= w -> OptQ M F Q -> safe (parse2 w M lr items) m Q.
+Proof. exact wp_parse2. Qed.
+Print Assumptions C17_parse_pow2.
+
+(** non_power_two::parse_word / parse_chunk: Buffer::allocate(groups.len()) holds every carry word; error exit as above *)
+Theorem C17_parse_chunk : forall w M : Z, 8 <= M ->
+  forall (rpw : Z) (gs : list (option Z)) (F : list (Z * Z)) (m : mem) (Q : option repr -> mem -> Prop),
+  Own F m -> OptQ M F Q -> safe (parse_n w M rpw gs) m Q.
+Proof. exact wp_parse_n. Qed.
+Print Assumptions C17_parse_chunk.
+
+Theorem C17_to_chunks : forall w M : Z, 0 < w -> 8 <= M ->
+  forall (a : targ) (k : Z) (F : list (Z * Z)) (m : mem) (Q : list repr -> mem -> Prop),
+  Own F m -> TargInv M a -> 0 < k ->
+  (forall rs m', Own (reprs_blks rs ++ F) m' -> Forall (ReprInv M) rs -> Q rs m') -> safe (to_chunks w M a k) m Q.
+Proof. exact wp_to_chunks. Qed.
+Print Assumptions C17_to_chunks.
+
+Theorem C17_from_chunks : forall w M : Z, 8 <= M ->
+  forall (cs : list (list Z)) (k x : Z) (F : list (Z * Z)) (m : mem) (Q : repr -> mem -> Prop),
+  Own F m -> 0 < k -> RQ M F Q -> safe (from_chunks w M cs k x) m Q.
+Proof. exact wp_from_chunks. Qed.
+Print Assumptions C17_from_chunks.
+
+Theorem C17_chunks_round_trip : forall w M : Z, 0 < w -> 8 <= M ->
+  forall (a : targ) (k : Z) (F : list (Z * Z)) (m : mem) (Q : repr -> mem -> Prop),
+  Own F m -> TargInv M a -> 0 < k -> RQ M F Q -> safe (chunks_rt w M a k) m Q.
+Proof. exact wp_chunks_rt. Qed.
+Print Assumptions C17_chunks_round_trip.
+
+(** the value-level fact behind sqrt_rem_large's buffer[..n], buffer[n], truncate(n + 1): the normalized operand shifted by
+    WORD_BITS * (len & 1) + (leading_zeros & !1) has exactly 2 * ((len + 1) / 2) words - every word size w >= 2 *)
+Theorem C17_sqrt_shifted_len : forall w : Z, 2 <= w -> forall (ws : list Z) (K : Z),
+  Words.wf w ws -> 1 <= len ws -> last ws 0 <> 0 -> 2 * gen4_sqrt_out_len (len ws) <= K ->
+  len (strip (tow w K (Words.value w ws * 2 ^ sqrt_shift w ws))) = 2 * gen4_sqrt_out_len (len ws).
+Proof. exact shifted_len. Qed.
+Print Assumptions C17_sqrt_shifted_len.
+
+Theorem C17_sqrt_rem_large : forall w M : Z, 2 <= w -> 8 <= M ->
+  forall (jv : list Z -> Z) (ws : list Z) (root_only : bool) (F : list (Z * Z)) (m : mem) (Q : repr * repr -> mem -> Prop),
+  Own F m -> Words.wf w ws -> 3 <= len ws -> last ws 0 <> 0 ->
+  (forall q r m', Own (rblks q ++ rblks r ++ F) m' -> ReprInv M q -> ReprInv M r -> Q (q, r) m') ->
+  safe (sqrt_rem_large w M jv ws root_only) m Q.
+Proof. exact wp_sqrt_rem_large. Qed.
+Print Assumptions C17_sqrt_rem_large.
+
+(** IBig::sqrt: value, or RootNegative before anything is allocated *)
+Theorem C17_isqrt : forall w M : Z, 2 <= w -> 8 <= M ->
+  forall (jv : list Z -> Z) (s : sign) (a : targ) (F : list (Z * Z)) (m : mem) (Q : outcome -> mem -> Prop),
+  Own F m -> TargInv M a -> TargWf w a -> tblks a = [] -> OQ M F Q -> safe (isqrt_top w M jv s a) m Q.
+Proof. exact wp_isqrt_top. Qed.
+Print Assumptions C17_isqrt.
+
+(** pow_large_base WITH the debug_assert!(len >= 2) of every mul_large / square_large inside its loop (round 3 left them out) *)
+Theorem C17_pow_large_base_guarded : forall w M : Z, 2 <= w -> 8 <= M ->
+  forall (base : list Z) (e : Z) (F : list (Z * Z)) (m : mem) (Q : repr -> mem -> Prop),
+  Own F m -> Words.wf w base -> 3 <= len base -> last base 0 <> 0 -> 3 <= e -> RQ M F Q -> safe (pow_large_base_g w M base e) m Q.
+Proof. exact wp_pow_large_base_g. Qed.
+Print Assumptions C17_pow_large_base_guarded.
+
+(** every step of the round-4 machine; [op3_pre]: the words a sqrt step reads are word digits *)
+Theorem C17_step3_storage_ops : forall w M : Z, 2 <= w -> 8 <= M ->
+  forall gk : list Z -> list Z -> Z * bool, (forall l r : list Z, 0 <= fst (gk l r) <= len (if snd (gk l r) then r else l)) ->
+  forall (jv : list Z -> Z) (o : op3) (pool : list repr) (m : mem),
+  op3_ok w M (length pool) o -> op3_pre w o pool -> StateInv M pool m ->
+  safe (step3 w M gk jv o pool) m (fun pr m' => StateInv M (fst pr) m' /\ length (fst pr) = length pool).
+Proof. exact step3_safe. Qed.
+Print Assumptions C17_step3_storage_ops.
+
+(** all finite histories whose steps meet their premises along the run; the final drop leaves the ghost heap empty *)
+Theorem C17_histories3_storage_ops : forall w M : Z, 2 <= w -> 8 <= M ->
+  forall gk : list Z -> list Z -> Z * bool, (forall l r : list Z, 0 <= fst (gk l r) <= len (if snd (gk l r) then r else l)) ->
+  forall (jv : list Z -> Z) (n : nat) (ops : list op3), pre_along w M gk jv n ops (repeat zero n) mem0 ->
+  safe (run3 w M gk jv ops (repeat zero n)) mem0
+       (fun pool m => StateInv M pool m /\ safe (drop_all pool) m (fun _ m' => forall p, blk m' p = None)).
+Proof. exact history3_safe. Qed.
+Print Assumptions C17_histories3_storage_ops.
+
+(** histories without sqrt steps (rings, signed bit operations, shifts, parsers, chunks, all earlier steps): no premise on the state *)
+Theorem C17_histories3_static : forall w M : Z, 2 <= w -> 8 <= M ->
+  forall gk : list Z -> list Z -> Z * bool, (forall l r : list Z, 0 <= fst (gk l r) <= len (if snd (gk l r) then r else l)) ->
+  forall (jv : list Z -> Z) (n : nat) (ops : list op3), Forall (fun o => op3_ok w M n o /\ no_sqrt o) ops ->
+  safe (run3 w M gk jv ops (repeat zero n)) mem0
+       (fun pool m => StateInv M pool m /\ safe (drop_all pool) m (fun _ m' => forall p, blk m' p = None)).
+Proof. exact history3_static_safe. Qed.
+Print Assumptions C17_histories3_static.
+
+(** non-vacuity: the premises hold along a 40-step history through every new kind of step *)
+Theorem C17_histories3_nonvacuous : pre_along 64 M64 gk0 jv0 8 example_ops (repeat zero 8) mem0.
+Proof. exact history3_example_pre. Qed.
+Print Assumptions C17_histories3_nonvacuous.
+
+(** ---- scratch memory of sqrt and of the modular multiplication (peak demands over the division / multiplication peak models
+    of C02, whose sufficiency theorems C02_mem_div / C02_mem_mul are cited) *)
+Theorem C17_scratch_sqrt : forall n : Z, 2 <= n ->
+  exists p : Z, ksqrt_peak (Z.to_nat n) n = Ok p /\ 0 <= p <= sqrt_req (gen4_sqrt_scratch_arg n).
+Proof. exact ksqrt_sufficient. Qed.
+Print Assumptions C17_scratch_sqrt.
+
+Theorem C17_scratch_sqrt_requirement_monotone : forall a b : Z, 3 <= a <= b -> sqrt_req a <= sqrt_req b.
+Proof. exact sqrt_req_mono. Qed.
+Print Assumptions C17_scratch_sqrt_requirement_monotone.
+
+Theorem C17_scratch_ring_mul : forall n na nb : Z, 3 <= n -> 0 <= na <= n -> 0 <= nb <= n ->
+  exists p : Z, ring_mul_peak n na nb = Ok p /\ 0 <= p <= ring_mul_req n.
+Proof. exact ring_mul_sufficient. Qed.
+Print Assumptions C17_scratch_ring_mul.
+
+Theorem C17_scratch_const_div : forall wlen n : Z, gen4_rem_large_test wlen n = true -> 2 <= n ->
+  exists p : Z, div_peak (gen4_rem_large_div_lhs wlen n) (gen4_rem_large_div_rhs wlen n) = Ok p /\
+                0 <= p <= g_div_mem_req (gen4_rem_large_div_lhs wlen n) (gen4_rem_large_div_rhs wlen n).
+Proof. exact const_div_sufficient. Qed.
+Print Assumptions C17_scratch_const_div.
+
+Theorem C17_tie_sqr_requirement : forall n : Z, gen_sqr_requirement n = sqr_req n.
+Proof. exact tie_sqr_requirement. Qed.
+Print Assumptions C17_tie_sqr_requirement.
